@@ -27,7 +27,10 @@ import (
 
 	"verifharness/hlib"
 
+	"github.com/oasisprotocol/curve25519-voi/primitives/x25519"
+
 	"github.com/oasisprotocol/oasis-core/go/common/crypto/signature"
+	memorySigner "github.com/oasisprotocol/oasis-core/go/common/crypto/signature/signers/memory"
 	"github.com/oasisprotocol/oasis-core/go/common/crypto/tuplehash"
 	"github.com/oasisprotocol/oasis-core/go/common/node"
 	"github.com/oasisprotocol/oasis-core/go/common/sgx/pcs"
@@ -137,6 +140,18 @@ func newPKI(r *hlib.Rng) *pki {
 	return p
 }
 
+// newPKIValidity is newPKI with chosen validity of the root and of the PCK platform CA.
+func newPKIValidity(r *hlib.Rng, rootNB, rootNA, interNB, interNA time.Time) *pki {
+	p := &pki{t0: time.Unix(1700000000, 0).UTC()}
+	p.rootKey, p.interKey, p.tcbKey = keyFrom(r), keyFrom(r), keyFrom(r)
+	rt := tpl("verif SGX Root CA", true, rootNB, rootNA)
+	p.root = mkCert(rt, rt, &p.rootKey.PublicKey, p.rootKey)
+	p.inter = mkCert(tpl("verif SGX PCK Platform CA", true, interNB, interNA), p.root, &p.interKey.PublicKey, p.rootKey)
+	p.tcb = mkCert(tpl("verif SGX TCB Signing", false, p.t0.Add(-800*24*time.Hour), p.t0.Add(3000*24*time.Hour)), p.root, &p.tcbKey.PublicKey, p.rootKey)
+	p.rootPEM, p.interPEM, p.tcbPEM = pemOf(p.root), pemOf(p.inter), pemOf(p.tcb)
+	return p
+}
+
 type sgxExt struct {
 	ID    asn1.ObjectIdentifier
 	Value asn1.RawValue
@@ -234,7 +249,7 @@ var devNames = []string{"noFmspc", "badExt", "pckNotAfter", "pckNotBefore", "qeD
 	"foreignSeam", "blSigner", "sigKey", "sigBody", "tdxModPol", "tdxModPolBad", "tdxNil", "disabled", "fmspcList", "issueNow", "issueEdge",
 	"issueOld", "tiId", "tiFmspc", "tiVersion", "tiIssueBad", "tiNextBad", "tiEval", "tiSigKey", "tiSigShort", "qeId", "qeMisc", "qeFlags",
 	"qeXfrm", "qeMrs", "qeVersion", "qeEval", "qeProd", "qeMiscBad", "qeAttrBad", "qeSigKey2", "certs", "qIssueNow", "qIssueEdge", "qIssueOld",
-	"attRak", "attIdentity", "unboundPceId", "unboundTcbType", "unboundSeamAttrs", "unboundTdxModule", "unboundNextUpdate", "akInvalid", "pckEd25519", "tcbEd25519", "qeJson", "tiJson", "qeIssueBad", "qeNextBad", "levelsHigh", "qeLevelsHigh", "qeLevelsHigh", "modLevels", "modLevels", "modIds", "noStatus", "badStatus", "validity0"}
+	"attRak", "attIdentity", "attSig", "attSig", "unboundPceId", "unboundTcbType", "unboundSeamAttrs", "unboundTdxModule", "unboundNextUpdate", "akInvalid", "pckEd25519", "tcbEd25519", "qeJson", "tiJson", "qeIssueBad", "qeNextBad", "levelsHigh", "qeLevelsHigh", "qeLevelsHigh", "modLevels", "modLevels", "modIds", "noStatus", "badStatus", "validity0"}
 
 // synthCase builds one complete input on a synthetic platform. A case deviates from a fully
 // valid input in 0-2 named ways, so that every check of the verifier is the first to fail
@@ -319,9 +334,12 @@ func synthCase(r *hlib.Rng, p *pki, res *hlib.Result) *Case {
 		dbgBit = !dbgBit
 	}
 	attested := r.Chance(1, 2)
-	rak := rbytes(r, 32)
-	var rakPk signature.PublicKey
-	copy(rakPk[:], rak)
+	rakSigner, err := memorySigner.NewFromSeed(rbytes(r, 32))
+	if err != nil {
+		panic(err)
+	}
+	rakPk := rakSigner.Public()
+	rak := append([]byte{}, rakPk[:]...)
 	rakHash := node.HashRAK(rakPk)
 	copy(hdr[12:28], pcs.QEVendorID_Intel)
 	copy(hdr[28:48], rbytes(r, 20))
@@ -439,6 +457,69 @@ func synthCase(r *hlib.Rng, p *pki, res *hlib.Result) *Case {
 		c.AttOK = append(c.AttOK, id...)
 		if r.Bool() {
 			c.AttOK = append(c.AttOK, rbytes(r, 64)...)
+		}
+		// signed attestation: RAK signature over (report data, node id, attestation height, REK)
+		// and the freshness window, at its boundaries
+		c.NodeID = rbytes(r, 32)
+		if r.Bool() {
+			c.Rek = rbytes(r, 32)
+		}
+		c.SAtt = r.Chance(2, 3)
+		c.NowHeight = uint64(1000 + r.Intn(1000))
+		c.ScMaxAge = uint64([]int{0, 0, 1, 5, 100}[r.Intn(5)])
+		c.DefMaxAge = uint64([]int{0, 10, 50}[r.Intn(3)])
+		eff := c.ScMaxAge
+		if eff == 0 {
+			eff = c.DefMaxAge
+		}
+		c.SaHeight = c.NowHeight - uint64(r.Intn(int(eff)+1))
+		signRD := body[len(body)-64:]
+		signNode, signHeight, signRek, signKey := c.NodeID, c.SaHeight, c.Rek, signature.Signer(rakSigner)
+		if dev("attSig") || r.Chance(1, 6) {
+			k := r.Intn(9)
+			res.Count(fmt.Sprintf("synth-attsig:%s", []string{"age-eff", "age-eff+1", "future", "other-node", "other-height", "other-rek", "other-report-data", "other-key", "garbage"}[k]))
+			switch k {
+			case 0:
+				c.SaHeight = c.NowHeight - eff
+				signHeight = c.SaHeight
+			case 1:
+				c.SaHeight = c.NowHeight - eff - 1
+				signHeight = c.SaHeight
+			case 2:
+				c.SaHeight = c.NowHeight + 1 + uint64(r.Intn(2))
+				signHeight = c.SaHeight
+			case 3:
+				signNode = rbytes(r, 32) // signed for another node: replay of an attestation
+			case 4:
+				signHeight = c.SaHeight + 1
+			case 5:
+				if len(signRek) == 0 {
+					signRek = rbytes(r, 32)
+				} else if r.Bool() {
+					signRek = nil
+				} else {
+					signRek = rbytes(r, 32)
+				}
+			case 6:
+				signRD = rbytes(r, 64)
+			case 7:
+				signKey, _ = memorySigner.NewFromSeed(rbytes(r, 32))
+			}
+		}
+		var nid signature.PublicKey
+		copy(nid[:], signNode)
+		var rekp *x25519.PublicKey
+		if len(signRek) == 32 {
+			var k x25519.PublicKey
+			copy(k[:], signRek)
+			rekp = &k
+		}
+		c.SaSig, err = signKey.ContextSign(node.AttestationSignatureContext, node.HashAttestation(signRD, nid, signHeight, rekp))
+		if err != nil {
+			panic(err)
+		}
+		if dev("attSig") && r.Chance(1, 9) {
+			c.SaSig = rbytes(r, 64)
 		}
 		// how the policy reaches the verifier: descriptor constraints shape x consensus default
 		c.Reg = []string{"", "nil", "empty", "ias", "pcs", "both", "empty", "nil"}[r.Intn(8)]
